@@ -712,6 +712,35 @@ def c02_tables(repo: Path, out: Path):
         for n in ast.walk(cpl):
             if isinstance(n, ast.If) and any(isinstance(c, ast.Call) and getattr(c.func, 'attr', '') == 'isdigit' for c in ast.walk(n.test)):
                 dot = any(isinstance(c, ast.Constant) and isinstance(c.value, str) and '.' in c.value for c in ast.walk(n.test))
+    # keyword case: the model's lines carry the keyword in upper case; that abstraction is sound only while every
+    # place that reads the keyword off the line folds its case
+    def has_upper(node):
+        return any(isinstance(n, ast.Call) and isinstance(n.func, ast.Attribute) and n.func.attr == 'upper' for n in ast.walk(node))
+
+    def assigns_upper(fn, target):
+        """every assignment in fn whose target (possibly inside a tuple) is `target` takes its value through .upper()"""
+        found, ok = False, True
+        for n in ast.walk(fn) if fn is not None else []:
+            if isinstance(n, ast.Assign):
+                for t in n.targets:
+                    for tt in (t.elts if isinstance(t, ast.Tuple) else [t]):
+                        if ast.unparse(tt) == target:
+                            found = True
+                            ok = ok and has_upper(n.value)
+        return found and ok
+    pcf = extract.find(shelx, 'Shelxfile._parse_cards')
+    word_from_upper = False
+    if pcf is not None:
+        upper_line = False
+        for n in ast.walk(pcf):
+            if isinstance(n, ast.Assign) and any(ast.unparse(t) == 'line' for t in n.targets) and has_upper(n.value):
+                upper_line = True
+            if isinstance(n, ast.Assign) and any(ast.unparse(t) == 'word' for t in n.targets):
+                word_from_upper = upper_line or has_upper(n.value)
+    case_sites = [('_parse_cards: word', word_from_upper),
+                  ('is_atom: first word', has_upper(isatom)),
+                  ('Command._parse_line: _card_name', assigns_upper(extract.find(cards, 'Command._parse_line'), 'self._card_name')),
+                  ('Restraint._parse_line: name', assigns_upper(extract.find(cards, 'Restraint._parse_line'), 'self.name'))]
     # card classes ------------------------------------------------------------------------------------------------
     classes = {c.name: c for c in cards.body if isinstance(c, ast.ClassDef)}
     cnames = module_level_names(cards)
@@ -828,8 +857,9 @@ def c02_tables(repo: Path, out: Path):
     txt.append(']')
     txt.append(f'def dotNumeric : Bool := {"true" if dot else "false"}')
     txt.append(f'def atomRejectsBig : Bool := {"true" if rejects_big else "false"}')
+    txt.append('def caseSites : List (String × Bool) := ' + lean_list([f'({lean_str(a)}, {"true" if b else "false"})' for a, b in case_sites]))
     txt.append('def tables : Tables := { shxCards := shxCards, shxCodes := shxCodes, dispatch := dispatch, cards := cards, atomMinCols := atomMinCols,\n'
-               '                         dotNumeric := dotNumeric, atomRejectsBig := atomRejectsBig, assumedFalse := assumed }')
+               '                         dotNumeric := dotNumeric, atomRejectsBig := atomRejectsBig, caseSites := caseSites, assumedFalse := assumed }')
     txt.append('end Shelx.C02.Extracted')
     write_if_changed(out / OUT, '\n'.join(txt) + '\n')
     return lost
